@@ -175,4 +175,96 @@ theorem entries_sound (f : NcFile) (e : Entry) (he : e ∈ netcdfEntries f) :
         simp [isCoord, h2, hd]
       simp [hc', resolveDim_root]
 
+/-! ### the variable entries as a whole, up to order (round 7) -/
+def Entry.isVar : Entry → Bool
+  | .var .. => true
+  | .group .. => false
+
+/-- what the property demands, as a list: one entry per file variable — root variables with their own dimension tuple
+    qualified by the root, lazy unless named like a root dimension; group variables under their group's path with
+    nearest-scope dimension names and their attributes minus `path` -/
+def expectedVarEntries (f : NcFile) : List Entry :=
+  (f.root.vars.map fun v =>
+      Entry.var [] v.name v.ty v.shape (v.dims.map (resolveDim f [])) v.attrs (!isCoord f v)) ++
+  f.groups.flatMap fun g => g.vars.map fun v =>
+      Entry.var g.path v.name v.ty v.shape (v.dims.map (resolveDim f g.path))
+        (v.attrs.filter fun a => a.1 ≠ "path") true
+
+theorem filter_isVar_map (l : List Var) (e : Var → Entry) (h : ∀ v, (e v).isVar = true) :
+    (l.map e).filter Entry.isVar = l.map e := by
+  apply List.filter_eq_self.mpr
+  intro x hx
+  obtain ⟨v, _, rfl⟩ := List.mem_map.mp hx
+  exact h v
+
+theorem varEntries_groups (f : NcFile) (gs : List Grp) :
+    (gs.flatMap (groupEntries f)).filter Entry.isVar = gs.flatMap fun g => g.vars.map fun v =>
+      Entry.var g.path v.name v.ty v.shape (v.dims.map (resolveDim f g.path))
+        (v.attrs.filter fun a => a.1 ≠ "path") true := by
+  induction gs with
+  | nil => rfl
+  | cons g gs ih =>
+    simp only [List.flatMap_cons, List.filter_append, ih]
+    congr 1
+    simp only [groupEntries, mkVar, List.filter_cons, Entry.isVar]
+    exact filter_isVar_map _ _ (fun _ => rfl)
+
+theorem varEntries_perm (f : NcFile) (hn : (f.root.vars.map Var.name).Nodup) (hd : (f.root.dims.map Prod.fst).Nodup) :
+    ((netcdfEntries f).filter Entry.isVar).Perm (expectedVarEntries f) := by
+  rw [netcdfEntries_eq]
+  simp only [List.filter_cons, Entry.isVar, List.filter_append, varEntries_groups, expectedVarEntries]
+  rw [filter_isVar_map _ _ (fun _ => rfl), filter_isVar_map _ _ (fun _ => rfl)]
+  -- the two root parts as images of the expected root map
+  let eR : Var → Entry := fun v =>
+    Entry.var [] v.name v.ty v.shape (v.dims.map (resolveDim f [])) v.attrs (!isCoord f v)
+  have hA : ((f.root.vars.filter fun v => !isCoord f v).map fun v =>
+      Entry.var [] v.name v.ty v.shape (v.dims.map fun d => (([] : List String), d)) v.attrs true)
+      = (f.root.vars.filter fun v => !isCoord f v).map eR := by
+    apply List.map_congr_left
+    intro v hv
+    have hc : isCoord f v = false := by simpa using (List.mem_filter.mp hv).2
+    simp [eR, hc, resolveDim_root]
+  have hC : ((f.root.vars.filter (isCoord f)).map fun v =>
+      Entry.var [] v.name v.ty v.shape (v.dims.map fun d => (([] : List String), d)) v.attrs false)
+      = (f.root.vars.filter (isCoord f)).map eR := by
+    apply List.map_congr_left
+    intro v hv
+    have hc : isCoord f v = true := (List.mem_filter.mp hv).2
+    simp [eR, hc, resolveDim_root]
+  have hc := (coordVars_perm f hn hd).map (fun v : Var =>
+      Entry.var [] v.name v.ty v.shape (v.dims.map fun d => (([] : List String), d)) v.attrs false)
+  rw [hC] at hc
+  rw [hA]
+  have hsplit : ((f.root.vars.filter fun v => !isCoord f v) ++ f.root.vars.filter (isCoord f)).Perm f.root.vars := by
+    have := List.filter_append_perm (fun v => !isCoord f v) f.root.vars
+    simpa using this
+  have h1 := hsplit.map eR
+  rw [List.map_append] at h1
+  refine List.Perm.trans ?_ (List.Perm.append_right _ h1)
+  rw [List.append_assoc, List.append_assoc]
+  exact List.Perm.append_left _ (List.perm_append_comm.trans (hc.append_right _))
+
+/-- the same list with the attributes as the FILE has them (what the property demands) -/
+def demandedVarEntries (f : NcFile) : List Entry :=
+  (f.root.vars.map fun v =>
+      Entry.var [] v.name v.ty v.shape (v.dims.map (resolveDim f [])) v.attrs (!isCoord f v)) ++
+  f.groups.flatMap fun g => g.vars.map fun v =>
+      Entry.var g.path v.name v.ty v.shape (v.dims.map (resolveDim f g.path)) v.attrs true
+
+theorem demanded_eq_expected (f : NcFile)
+    (hp : ∀ g ∈ f.groups, ∀ v ∈ g.vars, ∀ a ∈ v.attrs, a.1 ≠ "path") :
+    demandedVarEntries f = expectedVarEntries f := by
+  unfold demandedVarEntries expectedVarEntries
+  congr 1
+  apply List.flatMap_congr
+  intro g hg
+  apply List.map_congr_left
+  intro v hv
+  have : (v.attrs.filter fun a => a.1 ≠ "path") = v.attrs := by
+    apply List.filter_eq_self.mpr
+    intro a ha
+    simpa using hp g hg v hv a ha
+  rw [this]
+
+
 end Pydap.FileHandlers
